@@ -56,14 +56,16 @@ def gen_db(rng, max_programs=6, meta_program="mostly", imports=True, min_program
     programs = {}
     lines = {}
     for p in paths:
-        n = rng.randint(2, 7)
+        # mostly short listings; one in seven is long, so that two-digit line numbers and long span enumerations (wrapped
+        # into <details> by the report) occur
+        n = rng.randint(2, 7) if rng.random() < 0.85 else rng.randint(12, 40)
         lines[p] = n
         taxa = {}
         present = meta_program == "always" or (meta_program == "mostly" and rng.random() < 0.85)
         if present:
             taxa["meta/program"] = [[1, n]]
         for t in rng.sample(TAXA_POOL[1:], rng.randint(0, 5)):
-            cnt = rng.choice([1, 1, 1, 2, 2, 3])
+            cnt = rng.choice([1, 1, 1, 2, 2, 3]) if rng.random() < 0.9 else rng.randint(8, 14)
             spans = [gen_span(rng, n) for _ in range(cnt)]
             if cnt > 1 and rng.random() < 0.3:
                 spans[1] = list(spans[0])  # duplicate span value
@@ -217,6 +219,9 @@ def to_py_cmds(cmds):
     """Triples are tuples in a real pipeline file (lists work too); keep lists -> tuples to be faithful."""
     out = []
     for c in cmds:
+        if not isinstance(c, dict) or "raw" in c:
+            out.append(c["raw"] if isinstance(c, dict) else c)  # a command handed over as is (malformed / shell forms)
+            continue
         out.append({"operation": c["operation"], "data": [x if isinstance(x, str) else tuple(x) for x in c["data"]]})
     return out
 
